@@ -22,7 +22,7 @@ func layoutKey(l *model.Layout) map[string]string {
 	unit := map[string]string{"  ": "2sp", "    ": "4sp", "\t": "tab"}[l.Unit]
 	return map[string]string{"eol": eol, "unit": unit, "comments": fmt.Sprint(l.Comments), "trailing": fmt.Sprint(l.Trailing), "quoteAll": fmt.Sprint(l.QuoteAll),
 		"blockAnn": fmt.Sprint(l.BlockAnn), "explicit%": fmt.Sprint(l.ExplicitP), "standalone%": fmt.Sprint(l.Standalone), "macros": fmt.Sprint(l.Macros),
-		"includes": fmt.Sprint(l.Includes), "flat": fmt.Sprint(l.FlatIndent)}
+		"includes": fmt.Sprint(l.Includes), "flat": fmt.Sprint(l.FlatIndent), "gaps": fmt.Sprint(l.Gaps)}
 }
 
 func renderingJob(id string, rd *model.Rendered) *proto.Job {
